@@ -1,0 +1,54 @@
+//go:build verif
+
+// Contracts for the deductive verification in /verif (govc): the fingerprinted ClientHello
+// encoder of handshake_client.go (property C29). Comment-only file.
+
+package tls
+
+// gmt_unix_time (RFC 5246 7.4.1.2): uint32, i.e. exactly 4 bytes on the wire.
+//@ func currentTimestamp
+//@   ensures result1 == nil ==> len(result0) == 4
+//@   modifies nothing
+//@   terminates
+
+// Every configured extension is asked; the extensions are not nil interfaces.
+//@ func (*ClientFingerprintConfiguration).CheckImplementedExtensions
+//@   requires c != nil && forall(k, 0, len(c.Extensions), c.Extensions[k] != nil)
+//@   modifies nothing
+//@   terminates
+
+// Offsets in the encoded ClientHello (RFC 5246 7.4.1.2): 4-byte handshake header, 2-byte
+// version, 32-byte random, session_id<0..32> at 38, then cipher_suites<2..2^16-2> at fpCs,
+// compression_methods<1..2^8-1> at fpCm, and the optional extensions<0..2^16-1> at fpExt.
+//@ pred fpCs(c) = 39 + len(c.SessionID)
+//@ pred fpCm(c) = 41 + len(c.SessionID) + 2*len(c.CipherSuites)
+//@ pred fpExt(c) = 42 + len(c.SessionID) + 2*len(c.CipherSuites) + len(c.CompressionMethods)
+
+//@ func (*ClientFingerprintConfiguration).marshal
+//@   requires c != nil && config != nil && (config.Rand != nil || rand.Reader != nil)
+//@   requires forall(k, 0, len(c.Extensions), c.Extensions[k] != nil)
+//@   uses perreturn
+//@   loop 1 invariant len(ciphers) == 2 + 2*len(c.CipherSuites) && fresh(ciphers) && forall(k, 0, it, ciphers[2+2*k] == uint8(c.CipherSuites[k] >> 8) && ciphers[3+2*k] == uint8(c.CipherSuites[k]))
+//@   loop 1 invariant ciphers[0] == uint8(len(c.CipherSuites) >> 7) && ciphers[1] == uint8(len(c.CipherSuites) << 1)
+//@   loop 3 invariant (extensions == nil || fresh(extensions)) && sep(extensions, head) && sep(extensions, sessionID) && sep(extensions, ciphers) && sep(extensions, compressions)
+//@   loop 4 invariant fresh(hello) && sep(hello, head) && sep(hello, sessionID) && sep(hello, ciphers) && sep(hello, compressions) && sep(hello, extensions) && sep(hello, helloArray)
+//@   loop 4 invariant it == 0 ==> len(hello) == 0
+//@   loop 4 invariant it >= 1 ==> len(hello) >= 38 && forall(j, 0, 38, hello[j] == head[j])
+//@   loop 4 invariant it == 1 ==> len(hello) == 38
+//@   loop 4 invariant it >= 2 ==> forall(j, 0, len(sessionID), hello[38+j] == sessionID[j])
+//@   loop 4 invariant it == 2 ==> len(hello) == 38 + len(sessionID)
+//@   loop 4 invariant it >= 3 ==> forall(j, 0, len(ciphers), hello[38+len(sessionID)+j] == ciphers[j])
+//@   loop 4 invariant it == 3 ==> len(hello) == 38 + len(sessionID) + len(ciphers)
+//@   loop 4 invariant it >= 4 ==> forall(j, 0, len(compressions), hello[38+len(sessionID)+len(ciphers)+j] == compressions[j])
+//@   loop 4 invariant it == 4 ==> len(hello) == 38 + len(sessionID) + len(ciphers) + len(compressions)
+//@   loop 4 invariant it >= 5 ==> forall(j, 0, len(extensions), hello[38+len(sessionID)+len(ciphers)+len(compressions)+j] == extensions[j])
+//@   loop 4 invariant it == 5 ==> len(hello) == 38 + len(sessionID) + len(ciphers) + len(compressions) + len(extensions)
+//@   ensures [hdr] result1 == nil ==> len(result0) >= fpExt(c) && result0[0] == 1 && (int(result0[1])<<16 | int(result0[2])<<8 | int(result0[3])) == len(result0) - 4
+//@   ensures [vers] result1 == nil ==> result0[4] == uint8(c.HandshakeVersion >> 8) && result0[5] == uint8(c.HandshakeVersion)
+//@   ensures [random] result1 == nil && len(c.ClientRandom) == 32 ==> forall(j, 0, 32, result0[6+j] == c.ClientRandom[j])
+//@   ensures [sid] result1 == nil ==> int(result0[38]) == len(c.SessionID) && forall(j, 0, len(c.SessionID), result0[39+j] == c.SessionID[j])
+//@   ensures [suites] result1 == nil ==> be16at(result0, fpCs(c)) == 2*len(c.CipherSuites) && forall(k, 0, len(c.CipherSuites), result0[fpCs(c)+2+2*k] == uint8(c.CipherSuites[k] >> 8) && result0[fpCs(c)+3+2*k] == uint8(c.CipherSuites[k]))
+//@   ensures [comp] result1 == nil ==> int(result0[fpCm(c)]) == len(c.CompressionMethods) && forall(j, 0, len(c.CompressionMethods), result0[fpCm(c)+1+j] == c.CompressionMethods[j])
+//@   ensures [ext] result1 == nil ==> len(result0) == fpExt(c) || (len(result0) >= fpExt(c) + 3 && be16at(result0, fpExt(c)) == len(result0) - fpExt(c) - 2)
+//@   modifies nothing
+//@   terminates
